@@ -178,7 +178,7 @@ func c07Programs(r *plan.Rng) []c07prog {
 var c07CallerSitesEarly = []string{"LockW", "RunCtxEnter", "RunCtxSpawned", "VMGoStart", "VMRunEnter"}
 var c07SitesLate = []string{"VMRunExit", "VMGoEnd", "RunCtxReturn"}
 
-func genC07(r *plan.Rng) *plan.Plan {
+func genC07(r *plan.Rng, tier string) *plan.Plan {
 	p := &plan.Plan{}
 	progs := c07Programs(r.Fork(1))
 	pr := progs[r.Intn(len(progs))]
@@ -273,6 +273,16 @@ func genC07(r *plan.Rng) *plan.Plan {
 		p.Faults = append(p.Faults, plan.Fault{Kind: plan.FaultHostBlock, Task: 0, Run: 0, Call: call, DNs: int64(r.Range(1, 5000)) * 1000})
 	}
 	p.Tape = plan.GenTape(r.Fork(2), 48, []int{1, 2, 5, 20, 100}[r.Intn(5)])
+	// enumeration shape: every cancellation instant x every stall variant of a short program
+	den := 60
+	if tier == "thorough" {
+		den = 25
+	}
+	if shape == "compiled" && termA && limA >= 0 && limA <= 8 && !pr.host && r.Fork(9).Chance(1, den) {
+		param(p, "enum", 1)
+		p.Shape = "compiled"
+		note(p, "enum", "1")
+	}
 	return p
 }
 
